@@ -160,7 +160,7 @@ func ptBuildGPT(r *rand.Rand, s map[string]string) (t *gpt.Table, norm map[strin
 	if ents == nil {
 		ents = []map[string]any{}
 	}
-	norm = map[string]any{"guid": strings.ToUpper(t.GUID), "parts": ents}
+	norm = map[string]any{"guid": strings.ToUpper(t.GUID), "parts": ents, "pmbr": fmt.Sprint(t.ProtectiveMBR)}
 	return
 }
 
@@ -185,12 +185,12 @@ func ptBuildMBR(r *rand.Rand, s map[string]string) (t *mbr.Table, norm map[strin
 		t.Partitions = append(t.Partitions, p)
 		ents = append(ents, ptEntMBR(i+1, p.Bootable, typ, p.Start, p.Size))
 	}
-	norm = map[string]any{"guid": "", "parts": ents}
+	norm = map[string]any{"guid": "", "parts": ents, "pmbr": "-"}
 	return
 }
 
 func ptReadBack(d *memdev.Dev, lss int64) map[string]any {
-	rd := map[string]any{"res": "err", "kind": "", "guid": "", "parts": []map[string]any{}}
+	rd := map[string]any{"res": "err", "kind": "", "guid": "", "parts": []map[string]any{}, "pmbr": "-"}
 	var tb partition.Table
 	var err error
 	if p := fsx.Catch(func() { tb, err = partition.Read(file.New(d, true), int(lss), int(lss)) }); p != "" {
@@ -206,6 +206,7 @@ func ptReadBack(d *memdev.Dev, lss int64) map[string]any {
 	case *gpt.Table:
 		rd["kind"] = "gpt"
 		rd["guid"] = strings.ToUpper(t.GUID)
+		rd["pmbr"] = fmt.Sprint(t.ProtectiveMBR)
 		for _, p := range t.Partitions {
 			ents = append(ents, ptEntGPT(p.Index, p.Start, p.End, string(p.Type), p.Name, p.GUID, p.Attributes))
 		}
@@ -312,7 +313,7 @@ func ptExec(tp ptTuple, seed int64) map[string]any {
 	}); p != "" {
 		ev["res"] = "panic"
 		ev["panic"] = p
-		ev["rd"] = map[string]any{"res": "err", "kind": "", "guid": "", "parts": []any{}}
+		ev["rd"] = map[string]any{"res": "err", "kind": "", "guid": "", "parts": []any{}, "pmbr": "-"}
 		ev["raw"] = map[string]any{"bad": []string{}, "guid": "", "parts": []any{}}
 		return ev
 	}
@@ -499,7 +500,11 @@ func ptSigs(prop string, tp ptTuple, ev map[string]any) ([]string, string) {
 		eq := func(a, b any) bool { x, _ := json.Marshal(a); y, _ := json.Marshal(b); return string(x) == string(y) }
 		switch {
 		case rd["res"] != "ok" || rd["kind"] != k:
-			return []string{fmt.Sprintf("%s-over-%s-read-as-%v-%v", k, tp.S["prev"], rd["res"], rd["kind"])}, fmt.Sprintf("table %s written ok but partition.Read gives res=%v kind=%v", js, rd["res"], rd["kind"])
+			sig := fmt.Sprintf("%s-over-%s-read-as-%v-%v", k, tp.S["prev"], rd["res"], rd["kind"])
+			if tp.S["count"] == "0" {
+				sig += "-empty-table"
+			}
+			return []string{sig}, fmt.Sprintf("table %s written ok but partition.Read gives res=%v kind=%v", js, rd["res"], rd["kind"])
 		case !eq(rd["parts"], norm["parts"]) || (k == "gpt" && rd["guid"] != norm["guid"]):
 			return []string{k + "-roundtrip-differs"}, fmt.Sprintf("table %s reads back differently: wrote %v, read %v", js, trunc(norm), trunc(rd))
 		case len(raw["bad"].([]string)) > 0:
